@@ -19,6 +19,11 @@
   issuing API calls.  Subroutine structure: Engine.Begin / Commit / Abort are subroutines with a
   continuation tag `K` stored in the actor's local state; on return the actor is at `Pc.after`.
 
+  Engine.Begin follows /repo commit 1490243 ("read the session before taking the engine lock in
+  Begin"): for lock = true the session in ctx is read (s.mutex) BEFORE e.mutex is taken, so a nested
+  session transaction yields the nested error even on a closed engine.  The previous order is kept
+  in Model/ConcOld.lean (`stepOld`).
+
   Fields marked (ghost) are never read by a guard; they only record history for the theorems.
 -/
 namespace Lungo.Conc
